@@ -32,10 +32,14 @@ def gen_scenario(rng, d):
     # names that a normalising key would identify although they are different files: the same base name in another
     # directory, names differing in case, relative names differing only in leading dots and slashes
     rel = rng.random() < 0.25
-    files = ["default", "r.data", "../r.data", ".r.data"] if rel else ["default", "f1.data", "f2.data", "sub/f1.data", "F1.data"]
+    # ... and names that ARE one file written in two ways (./f1.data, sub/../f1.data): one file, one set of records
+    files = ["default", "r.data", "../r.data", ".r.data", "./r.data"] if rel else ["default", "f1.data", "f2.data", "sub/f1.data", "F1.data",
+                                                                                      "./f1.data", "sub/../f1.data"]
     os.makedirs(os.path.join(d, "sub"), exist_ok=True)
     os.makedirs(os.path.join(d, "work"), exist_ok=True)
     share_suite = rng.random() < 0.6
+    falsy = rng.random() < 0.4
+    falsy_var = rng.choice([0, 0.0, False])
     suites = {}
     exps = {}
     exp_file = {}
@@ -44,11 +48,16 @@ def gen_scenario(rng, d):
         if sname not in suites:
             suites[sname] = {"gauge_adapter": "RebenchLog", "command": "%(suite)s/%(benchmark)s %(invocation)s",
                              "benchmarks": ["B%d" % b for b in range(nb)]}
+            if falsy:
+                # values that are false in Python's eyes are values: they identify the run in every line
+                suites[sname]["input_sizes"] = [0]
+                suites[sname]["variable_values"] = [falsy_var]
         e = {"executions": [{"E": {"suites": [sname]}}]}
         f = rng.choice(files)
         if f != "default":
             e["data_file"] = f if rel else os.path.join(d, f)
-        exp_file["X%d" % x] = os.path.join(d, "default.data") if f == "default" else (f if rel else os.path.join(d, f))
+        # the harness names a file by its normalised spelling (what the file system would open)
+        exp_file["X%d" % x] = os.path.join(d, "default.data") if f == "default" else (os.path.normpath(f) if rel else os.path.normpath(os.path.join(d, f)))
         exps["X%d" % x] = e
     warmup = rng.choice([0, 0, 1, 3])
     raw = {"executors": {"E": {"path": "/x", "executable": "exe"}}, "benchmark_suites": suites, "experiments": exps,
@@ -56,6 +65,7 @@ def gen_scenario(rng, d):
     ncrit = rng.randint(1, 4)
     niter = rng.randint(1, 5)
     return dict(raw=raw, exp_file=exp_file, nb=nb, ncrit=ncrit, niter=niter, warmup=warmup, share=share_suite,
+                columns=("0", str(falsy_var)) if falsy else ("", ""),
                 cwd=os.path.join(d, "work") if rel else None)
 
 
@@ -232,9 +242,9 @@ def run(chk):
                 for _, r in rows:
                     key = (r[7], r[5], int(r[0]), int(r[1]), r[4])
                     got[key] = got.get(key, 0) + 1
-                    if r[6] != "E" or r[9] != "1" or r[3] != "ms":
+                    if r[6] != "E" or r[9] != "1" or r[3] != "ms" or (r[10], r[11]) != sc["columns"]:
                         chk.violation("C06 identifying columns of a measurement line", dict(scenario=sc["raw"], file=os.path.basename(f)),
-                                      "executor E, cores 1, unit ms", r)
+                                      "executor E, cores 1, unit ms, input size and variable value %r" % (sc["columns"],), r)
                         break
                 dup = {k: v for k, v in got.items() if v != 1}
                 if dup:
@@ -514,6 +524,9 @@ def password_part(chk):
                 host_noport = host.rsplit(":", 1)[0] if not host.endswith("]") and ":" in host.strip("[]") and not host.startswith("[") else host
                 if "[" not in url and (not got.startswith(url.split("//", 1)[0] + "//" + user + "@") or not got.endswith("/" + path)):
                     chk.violation("C06 scheme, user, host and path of the repository URL are kept", dict(url=url), url, got)
+                elif "[" not in url and got.lower() != (url.split("//", 1)[0] + "//" + user + "@" + host + "/" + path).lower():
+                    chk.violation("C06 removing the password leaves the rest of the repository URL as it is (the port included)", dict(url=url),
+                                  url.split("//", 1)[0] + "//" + user + "@" + host + "/" + path, got)
             elif got != url:
                 chk.violation("C06 a repository URL without password is recorded as it is", dict(url=url), url, got)
             chk.case(("url", url))
